@@ -20,7 +20,7 @@ DRIVERS = ["drv_c02"]
 ANCHORS = [
     ("buidl/phash.py", "tagged_hash"), ("buidl/phash.py", "hash_aux"), ("buidl/phash.py", "hash_nonce"),
     ("buidl/phash.py", "hash_challenge"),
-    ("buidl/pecc.py", "PrivateKey.__init__"), ("buidl/pecc.py", "PrivateKey.even_secret"),
+    ("buidl/pecc.py", "PrivateKey.__init__"), ("buidl/pecc.py", "PrivateKey.parse"), ("buidl/pecc.py", "PrivateKey.wif"), ("buidl/pecc.py", "PrivateKey.even_secret"),
     ("buidl/pecc.py", "PrivateKey.bip340_k"), ("buidl/pecc.py", "PrivateKey.sign_schnorr"),
     ("buidl/pecc.py", "S256Point.verify_schnorr"), ("buidl/pecc.py", "S256Point.__init__"),
     ("buidl/pecc.py", "S256Point.__add__"), ("buidl/pecc.py", "S256Point.__rmul__"),
@@ -45,7 +45,9 @@ RULE = ("secrets: boundary values (1, 2, 3, n-1, n-2, 2^128±1, 2^255±1) and PR
         "the s = e·d signature (infinite result) rejected; keys that lift_x refuses (00…00, x ≥ p, x off the curve) "
         "with signatures x(s·G) ‖ s that would verify if the key were taken for infinity; an odd-Y PrivateKey whose "
         "own point object rejects tampered signatures (odd-y result, x mismatch, infinite result) and then signs "
-        "again.  Non-trivial = not "
+        "again; key CONFIGURATIONS: PrivateKey(d, network, compressed) for all 8 combinations and PrivateKey.parse of "
+        "both WIF forms, each signing / deriving nonces with the answer required to equal the configuration-free "
+        "model and BIP340 specification.  Non-trivial = not "
         "rejected by a length/range check alone; distinct = distinct request lines")
 CLAUSES = {
     "tagged hashes (cache transparency)": "proved (taggedHash_cache_transparent, taggedHash_invariant, tags)",
@@ -115,11 +117,34 @@ def _fmt_pt(p):
     return xb(p.x.num.to_bytes(32, "big") + p.y.num.to_bytes(32, "big"))
 
 
+CONFIGS = [f"c{c}:{n}" for c in (1, 0) for n in ("mainnet", "testnet", "signet", "regtest")] + \
+          [f"wif{c}:{n}" for c in (1, 0) for n in ("mainnet", "testnet")]
+
+
+def mk_key(d, cfg=None):
+    """the PrivateKey for secret d under a configuration: None = PrivateKey(d); `c<0|1>:<network>` =
+    PrivateKey(d, network=…, compressed=…); `wif<0|1>:<network>` = PrivateKey.parse of the (un)compressed WIF.
+    Neither the model nor the specifications have these options: the expected answers do not depend on them."""
+    import buidl.ecc as E
+    if not cfg:
+        return E.PrivateKey(d)
+    kind, net = cfg.split(":")
+    if kind.startswith("wif"):
+        return E.PrivateKey.parse(E.PrivateKey(d, network=net).wif(compressed=kind == "wif1"))
+    return E.PrivateKey(d, network=net, compressed=kind == "c1")
+
+
+def split_op(tok):
+    """`op@cfg` -> (op, cfg)"""
+    op, _, cfg = tok.partition("@")
+    return op, (cfg or None)
+
+
 def _impl(t):
     import buidl.ecc as E
     import buidl.hash as H
     import buidl.phash as PH
-    op = t[0]
+    op, cfg = split_op(t[0])
     if op == "tagged":
         k = int(t[1])
         PH.TAG_HASH_CACHE.clear()
@@ -129,9 +154,9 @@ def _impl(t):
     if op == "spec_tagged":
         return xb(H.tagged_hash(unx(t[1]), unx(t[2])))
     if op == "bip340k":
-        return str(E.PrivateKey(int(t[1])).bip340_k(unx(t[2]), _aux(t[3])))
+        return str(mk_key(int(t[1]), cfg).bip340_k(unx(t[2]), _aux(t[3])))
     if op in ("schnorr_sign", "spec_sign"):
-        return xb(E.PrivateKey(int(t[1])).sign_schnorr(unx(t[2]), _aux(t[3])).serialize())
+        return xb(mk_key(int(t[1]), cfg).sign_schnorr(unx(t[2]), _aux(t[3])).serialize())
     if op in ("schnorr_verify", "spec_verify"):
         pk = E.S256Point.parse(unx(t[1]))
         sig = E.SchnorrSignature.parse(unx(t[3]))
@@ -187,13 +212,13 @@ def impl_history(lines):
     for line in lines:
         t = line.split(" ")
         try:
-            op = t[0]
+            op, cfg = split_op(t[0])
             if op in ("schnorr_sign", "spec_sign", "bip340k"):
-                if ("sk", t[1]) not in pool:
-                    pk = put(("sk", t[1]), E.PrivateKey(int(t[1])))
+                if ("sk", t[1], cfg) not in pool:
+                    pk = put(("sk", t[1], cfg), mk_key(int(t[1]), cfg))
                     put(("pt", xb(pk.point.xonly())), pk.point)
                     put(("pt", xb(pk.point.sec())), pk.point)
-                pk = pool[("sk", t[1])]
+                pk = pool[("sk", t[1], cfg)]
                 if op == "bip340k":
                     ans = str(pk.bip340_k(unx(t[2]), _aux(t[3])))
                 else:
@@ -280,12 +305,16 @@ def impl_line(line):
 
 def impl_key(line):
     t = line.split(" ")
-    t[0] = IMPL_ALIAS.get(t[0], t[0])
+    op, cfg = split_op(t[0])
+    t[0] = IMPL_ALIAS.get(op, op) + (f"@{cfg}" if cfg else "")
     return " ".join(t)
 
 
 def model_line(line):
-    return line
+    """the driver request: the key configuration is dropped (the model and the specification have none)"""
+    t = line.split(" ")
+    t[0] = split_op(t[0])[0]
+    return " ".join(t)
 
 
 # --------------------------------------------------------------------------------- direct predicates
@@ -293,7 +322,7 @@ def p_sign_verify(c):
     """signing yields 64 bytes that verify under the x-only key (and under the SEC key), parse back to themselves,
     and R has even y / s < n"""
     import buidl.ecc as E
-    pk = E.PrivateKey(c["d"])
+    pk = mk_key(c["d"], c.get("cfg"))
     msg, aux = unx(c["msg"]), _aux(c["aux"])
     sig = pk.sign_schnorr(msg, aux)
     raw = sig.serialize()
@@ -572,6 +601,31 @@ def run(ctx):
             steps = [wrong_m, right, wrong_k, right, wrong_m, ver(sec, msg, sig)]
         hists.append((["history:signed_object_wrong_first", "history:signed_object_right_first",
                        "history:parsed_object_right_first", "history:parsed_object_wrong_first"][v], steps))
+
+    # ---- key configuration: every (compressed, network) combination and keys parsed from both WIF forms must give
+    #      the same BIP340 nonce and signature bytes as the default key (checked against model and specification)
+    cfg_cases = []
+    for i in range(ctx.n(24)):
+        (d, msg, aux), _ = good[(i * 7 + 3) % len(good)]
+        if i % 3 == 0:
+            msg, aux = rbytes(rng, 32), rbytes(rng, 32)
+        cfg = CONFIGS[i % len(CONFIGS)]
+        a = "-" if aux is None else xb(aux)
+        sa = xb(bytes(32)) if aux is None else xb(aux)
+        lines.append(("schnorr_sign@cfg", f"schnorr_sign@{cfg} {d} {xb(msg)} {a}", True))
+        lines.append(("spec_sign@cfg", f"spec_sign@{cfg} {d} {xb(msg)} {sa}", True))
+        lines.append(("bip340k@cfg", f"bip340k@{cfg} {d} {xb(msg)} {a}", True))
+        rec.count("config:" + cfg)
+        if i % 3 == 0:
+            preds.append(("sign_verify", {"d": d, "msg": xb(msg), "aux": a, "cfg": cfg}))
+        cfg_cases.append((cfg, d, msg, aux))
+    for j in range(0, len(cfg_cases), 6):    # differently configured key objects for the SAME secret in one process
+        _, d, msg, aux = cfg_cases[j]
+        steps = []
+        for cfg, _, _, _ in cfg_cases[j: j + 6][:4]:
+            l, ml = sgn(d, msg, aux)
+            steps.append((l.replace("schnorr_sign ", f"schnorr_sign@{cfg} ", 1), ml))
+        hists.append(("history:key_configurations", steps + steps[:1]))
 
     # ---- signatures CONSTRUCTED with chosen nonces (completeness on inputs the signer cannot produce): k = 1, 2, 7, n-1,
     #      d, n-d (R.x = P.x), 2d, d+1, sha256(m), random; all must be accepted; their bit flips must be rejected
